@@ -203,3 +203,35 @@ Theorem C03_tags_to_text_is_source : forall o m,
   ImpGen.imp_sam_tagsToText o (ImpProofsN.tags_of m) = GoSem.Ret (Bio.Model.Sam.tags_text o m).
 Proof. exact ImpProofsN.imp_tagsToText. Qed.
 Print Assumptions C03_tags_to_text_is_source.
+
+(* parseLine as translated from sam.go and tags.go — the field count, the six string fields,
+   the five integers through parseInts (its *int out-parameters are the values they point
+   to), the tags through splitTag (the two colons found by ranging over the string) and
+   parseTags (the switch on the type letter, strconv.Atoi, ParseFloat through the oracle,
+   hex.DecodeString, the map store) — returns the model's record exactly when the model
+   accepts the line, an error otherwise, for every field list and every float oracle. *)
+Theorem C03_parse_line_is_source : forall o line,
+  ImpGen.imp_sam_parseLine o line
+  = match Bio.Model.Sam.parse_line o line with
+    | Ok r => GoSem.Ret (ImpProofsN.sam_of r, false)
+    | _ => GoSem.Ret (ImpProofsN.sam_zero, true)
+    end.
+Proof. exact ImpProofsN.imp_parseLine. Qed.
+Print Assumptions C03_parse_line_is_source.
+
+Theorem C03_split_tag_is_source : forall tag,
+  ImpGen.imp_sam_splitTag tag
+  = match Bio.Model.Sam.split_tag tag with
+    | Some (a, b, c) => GoSem.Ret ([a; b; c], false)
+    | None => GoSem.Ret ([[]; []; []], true)
+    end.
+Proof. exact ImpProofsN.imp_splitTag. Qed.
+Print Assumptions C03_split_tag_is_source.
+
+Example C03_source_parse_example :
+  let o := {| f_parse := [(bs "1.5", bs "1.5")]; f_fmt := [] |} in
+  ImpGen.imp_sam_parseLine o [bs "q"; bs "16"; bs "chr"; bs "7"; bs "60"; bs "3M"; bs "="; bs "9"; bs "-3"; bs "ACG"; bs "!!!"; bs "NM:i:2"; bs "XF:f:1.5"; bs "XA:A:c"]
+  = GoSem.Ret (ImpGen.Imp_sam_SAM (bs "q") 16 (bs "chr") 7 60 (bs "3M") (bs "=") 9 (-3) (bs "ACG") (bs "!!!")
+      [(bs "NM", GoSem.AnyInt 2); (bs "XF", GoSem.AnyFloat (bs "1.5")); (bs "XA", GoSem.AnyByte 99)], false)
+  /\ ImpGen.imp_sam_parseLine o [bs "q"; bs "16"] = GoSem.Ret (ImpProofsN.sam_zero, true).
+Proof. vm_compute. split; reflexivity. Qed.
